@@ -299,6 +299,7 @@ def invariant(ctx):
     """length == data.len() at every construction / mutation site of an area."""
     ck, facts = ctx.check, ctx.facts
     sites = 0
+    resize_path = facts.method(AXE, "mem_resize_section")["path"]
     for k, b in facts.bodies.items():
         if b["glue"]:
             continue
@@ -323,9 +324,35 @@ def invariant(ctx):
                 # field stores
                 names = [e[2] for e in st[1][1] if isinstance(e, list) and e[0] == "f" and e[3] == C09.AREA_ADT]
                 if names and names[-1] in ("length", "data", "start"):
+                    if b["path"] == resize_path:
+                        continue  # decided on final values below
                     sites += 1
                     check_field_store(ctx, b, bi, st, names[-1])
-    ck.floor("area construction/mutation sites", sites, 3)
+    # the resize function: length == data.len() on the final values of every success path, per size class
+    # (sequence model shared with C10.resize; independent of whether it assigns fields or mutates the vector in place)
+    from . import C10
+    sub = type("Sub", (), {})()
+    sub.__dict__.update(ctx.__dict__)
+
+    class _Quiet:
+        def __init__(self, ck_):
+            self.cov, self.samples, self.assumptions, self.violations = {}, [], ck_.assumptions, ck_.violations
+
+        def ok(self, *a, **k): pass
+        def violation(self, *a, **k): pass
+        def undecided_(self, *a, **k): pass
+        def floor(self, *a, **k): pass
+        def sample(self, *a, **k): pass
+    sub.check = _Quiet(ck)
+    ibad = C10.resize_copy(sub)
+    sites += 1
+    rb = facts.bodies[resize_path]
+    if ibad:
+        ck.violation("C08.invariant", "resize in %s" % rb["name"], ibad, where="%s:%d" % (rb["span"][0], rb["span"][1]),
+                     what="resize leaves length != data.len(): the bounds test and the byte vector disagree")
+    else:
+        ck.ok("C08.invariant", "resize in %s" % rb["name"])
+    ck.floor("area construction/mutation sites", sites, 2)
 
 
 def origin(body, op):
